@@ -572,6 +572,10 @@ class BuiltinsMixin:
             return VStr(r)
         if name == "split" and len(args) == 1 and isinstance(args[0], VStr):
             return self.str_split(recv, args[0], st)
+        if name == "encode" and not args:
+            # bytes are not modelled: the encoded text is the text
+            self.uni.note_assumption("str.encode() is the identity")
+            return recv
         if name == "format":
             # template.format(...) : an uninterpreted function of the
             # template and the (string) arguments, keywords in name order
